@@ -317,6 +317,23 @@ def specRun (limit : Option Limit) : List (List Ch) → Tail → Pos → Res
       (if gs = [] ∧ t = .err then ⟨true, here⟩ else specRun limit gs t (sumPos here g))
     else ⟨false, here⟩
 
+/-- How many graphemes `specRun` counts (the returned position is the sum over `gs.take` of this). -/
+def specTaken (limit : Option Limit) : List (List Ch) → Tail → Pos → Nat
+  | [], _, _ => 0
+  | g :: gs, t, here =>
+    if Within limit (sumPos here g) then
+      (if gs = [] ∧ t = .err then 0 else 1 + specTaken limit gs t (sumPos here g))
+    else 0
+
+/-- Every grapheme fits: counting `gs` from `here` never crosses a limit ("the scan reaches the end"). -/
+def AllFit (limit : Option Limit) : Pos → List (List Ch) → Prop
+  | _, [] => True
+  | here, g :: gs => Within limit (sumPos here g) ∧ AllFit limit (sumPos here g) gs
+
+/-- `a` is at most `b` as a limit (`-1` / `(size_t)-1` = unlimited = top). -/
+def LimitLe (a b : Option Limit) : Prop :=
+  ∀ p : Pos, Within a p → Within b p
+
 /-- The same loop as `loop`, over already-decoded characters (used to connect `loop` and `specRun`). -/
 def runChars (limit : Option Limit) : List Ch → Tail → Pos → Pos → Res
   | [], .eof, here, _ => ⟨false, here⟩
@@ -337,6 +354,10 @@ def scan (mem : Mem) : Nat → Nat → Option Nat → Option (List Ch × Tail)
       match scan mem fuel (str + n) (lenDec len n) with
       | none => none
       | some (cs, t) => some (⟨n, cp, w⟩ :: cs, t)
+
+/-- `nul` is the first NUL byte at or after offset `str`. -/
+def FirstNul (mem : Mem) (str nul : Nat) : Prop :=
+  str ≤ nul ∧ (mem nul).toNat = 0 ∧ ∀ i, str ≤ i → i < nul → (mem i).toNat ≠ 0
 
 /-- Memory holding the given bytes at offsets `0 …` and NUL everywhere after them. -/
 def memOfBytes (l : List Nat) : Mem := fun i => UInt8.ofNat (l.getD i 0)
